@@ -28,7 +28,8 @@ PagesE == {<<InsertB("set", <<Assign("z", StrL("page"), 1), H("s")>>, 1)>>,
            <<InsertB("use", <<P(Var("z")), Assign("w", IntL(1), 1)>>, 1), InsertB("inner", <<Assign("z", StrL("in"), 1), P(Var("w"))>>, 1)>>,
            <<InsertE("use", Var("z"), 1), InsertB("set", <<Assign("fresh", IntL(3), 1)>>, 1), InsertB("inner", <<P(Var("fresh"))>>, 1)>>}
 \* contents an insert may have for reserve r
-InsForms(r) == {InsertB(r, <<H(r), H(":"), P(Var("t"))>>, 1), InsertE(r, StrL("lit-" \o r), 1), InsertE(r, Bin("+", Var("t"), StrL("!")), 1),
+InsForms(r) == {InsertB(r, <<>>, 1),                      \* a block-form insert with an empty body fills the reserve with nothing
+                InsertB(r, <<H(r), H(":"), P(Var("t"))>>, 1), InsertE(r, StrL("lit-" \o r), 1), InsertE(r, Bin("+", Var("t"), StrL("!")), 1),
                 InsertB(r, <<If(<<Br(Var("show"), <<H("s")>>)>>, <<H("n")>>, 1)>>, 1)}
 RowForms == {InsertB("row", <<P(Var("q")), H("#"), P(Dot(Var("loop"), "iter"))>>, 1), InsertE("row", Bin("*", Var("q"), IntL(2)), 1)}
 NoStmt == [k |-> "none"]
@@ -90,13 +91,16 @@ CompNamed == <<If(<<Br(Var("big"), <<H("BIG")>>)>>, <<H("sm")>>, 1), Slot("head"
 CompBoth == <<H("{"), Slot("", 1), H("/"), Slot("x", 1), H("/"), P(Var("n")), H("}")>>
 CompTwo == <<P(Var("a")), H("-"), P(Var("b")), H("-"), P(Var("c"))>>
 \* components that assign: the assignment lives in the component's own scope (C04) and every use starts afresh (C07)
+\* a component that reads what surrounds the place of use (the caller's loop variable, its loop object, its variables)
+CompEcho == <<H("<"), P(Var("x")), H(":"), P(Dot(Var("loop"), "iter")), H(":"), P(Var("who")), H(">")>>
 CompSetter == <<Assign("t", StrL("in"), 1), H("("), P(Var("t")), H(")")>>
 CompBump == <<Assign("cnt", Bin("+", Var("cnt"), IntL(1)), 1), P(Var("cnt")), Slot("", 1)>>
 Comps07 == [n \in {"components/plain", "components/def", "components/named", "components/both", "components/two", "card",
-                   "components/setter", "components/bump"} |->
+                   "components/setter", "components/bump", "components/echo"} |->
               CASE n = "components/plain" -> Tpl(NoUse, CompPlain) [] n = "components/def" -> Tpl(NoUse, CompDef)
                 [] n = "components/named" -> Tpl(NoUse, CompNamed) [] n = "components/both" -> Tpl(NoUse, CompBoth)
                 [] n = "components/two" -> Tpl(NoUse, CompTwo)
+                [] n = "components/echo" -> Tpl(NoUse, CompEcho)
                 [] n = "components/setter" -> Tpl(NoUse, CompSetter) [] n = "components/bump" -> Tpl(NoUse, CompBump)
                 [] n = "card" -> Tpl(NoUse, <<H("card:"), P(Var("name"))>>)]
 Uses == {Comp(Alias("plain"), <<Arg("name", StrL("Ann"))>>, <<>>, 1), Comp(Alias("plain"), <<Arg("name", Var("who"))>>, <<>>, 1),
@@ -131,6 +135,10 @@ Pages07 == {<<H("A:"), u1, H(" B:"), u2>> : u1 \in Uses, u2 \in Uses}
       \cup {<<If(<<Br(Var("yes"), <<u>>)>>, <<H("no")>>, 1), If(<<Br(IntL(0), <<H("no")>>)>>, <<u>>, 1)>> : u \in Uses}
       \cup {<<Assign("name", StrL("outer"), 1), u, H("="), P(Var("name"))>> : u \in Uses}
       \cup Leak07
+      \* a use without arguments and without slots inside a loop shows the surrounding variables of EACH pass
+      \cup {<<Each("x", Var("xs"), <<u, H(";")>>, NoElse, 1)>> : u \in {Comp(Alias("echo"), <<>>, <<>>, 1), Comp(Alias("echo"), <<Arg("z", IntL(1))>>, <<>>, 1)}}
+      \cup {<<Each("x", Var("xs"), <<Comp(Alias("echo"), <<>>, <<>>, 1), If(<<Br(Dot(Var("loop"), "first"), <<Comp(Alias("echo"), <<>>, <<>>, 1)>>)>>, NoElse, 1)>>, NoElse, 1)>>,
+            <<For(Assign("x", IntL(0), 1), Bin("<", Var("x"), IntL(3)), Post("++", Var("x")), <<Each("y", Var("xs"), <<Comp(Alias("echo"), <<>>, <<>>, 1)>>, NoElse, 1)>>, NoElse, 1)>>}
       \* white space between a use and the next {{ }} or directive is text of the page like any other (C05)
       \cup {<<H("["), u, H(" "), P(Var("who")), H("]")>> : u \in Uses}
       \cup {<<u, H("\n  "), If(<<Br(Var("yes"), <<H("y")>>)>>, NoElse, 1), H(" "), u>> : u \in Uses}
